@@ -7,6 +7,8 @@ func Scenarios(property string, thorough bool) []driver.Scenario {
 	switch property {
 	case "C11":
 		return c11Scenarios(thorough)
+	case "C19":
+		return c19Scenarios(thorough)
 	}
 	return nil
 }
